@@ -194,7 +194,7 @@ if __name__ == "__main__":
         os.environ["GSA_NUM_NOCACHE"] = "1"
         r = run(ctx)
     obs = list(r.obligations())
-    bad = [(p, o) for p, o in obs if not o["ok"]]
+    bad = [(p, o) for p, o in obs if not o["ok"] and o["kind"] != "cover"]
     print("bodies %d obligations %d failed %d errors %d time %.1fs" % (len(r.data["bodies"]), len(obs), len(bad), len(r.errors()), r.time))
     for p, e in r.errors().items():
         print("ERROR", p, e)
